@@ -20,7 +20,12 @@ impl FlattenedJson {
     /// Create a `FlattenedJson` from `Raw`.
     pub fn from_raw<T>(raw: &Raw<T>) -> Self {
         let mut s = Self { map: BTreeMap::new() };
-        s.flatten_value(to_json_value(raw).unwrap(), "".into());
+        // The conversion fails for JSON that `Raw` accepts but `serde_json::Value` cannot
+        // represent, like a number that is out of range (`1e999`).
+        match to_json_value(raw) {
+            Ok(value) => s.flatten_value(value, "".into()),
+            Err(error) => warn!("Failed to flatten JSON: {error}"),
+        }
         s
     }
 
